@@ -48,6 +48,9 @@ def live_notations() -> list:
     for n in (0, 1, 2, 3):
         out.append((f'kore.nary_app(f,{n})', K.nary_app(P.Symbol('f'), n)))
         out.append((f'kore.nary_app(c,{n},cell)', K.nary_app(P.Symbol('c'), n, True)))
+    # a generated n-ary notation for a symbol whose name carries (escaped) braces, as KORE sort-parametric symbols do
+    out.append(('kore.nary_app(inj{{S, T}},2)', K.nary_app(P.Symbol('inj{{S, T}}'), 2)))
+    out.append(('kore.nary_app(Lbl{{}},1,cell)', K.nary_app(P.Symbol('Lbl{{}}'), 1, True)))
     return out
 
 
@@ -498,9 +501,9 @@ def levels(tier: str) -> list[dict]:
         nt_ = live_notations()[i][1]
         if nt_.arity >= 2 and len(nt_.definition.metavars()) >= 2:
             L.append(dict(label=f'nesting/{live_notations()[i][0]}', module=M, fn='h_nest', kwargs=dict(idx=i), budget_s=bud, required=True, twin=False, small=True))
-    plan = [('patterns', 'gamma', 2), ('proofs', 'proof', 2), ('all', 'gamma', 2), ('patterns', 'claim', 2), ('small', 'proof', 3)]
+    plan = [('patterns', 'gamma', 2), ('proofs', 'proof', 2), ('all', 'gamma', 2), ('patterns', 'claim', 2), ('small', 'proof', 3), ('patterns', 'gamma', 3), ('proofs', 'proof', 3)]
     if not q:
-        plan += [('patterns', 'gamma', 3), ('proofs', 'proof', 3), ('all', 'claim', 3), ('small', 'proof', 4), ('patterns', 'gamma', 4), ('proofs', 'proof', 4)]
+        plan += [ ('all', 'claim', 3), ('small', 'proof', 4), ('patterns', 'gamma', 4), ('proofs', 'proof', 4)]
     for alpha, ph, st in plan:
         L.append(dict(label=f'steps/{alpha}/{ph}/steps={st}', module=M, fn='h_steps', kwargs=dict(alphabet=alpha, steps=st, phase=ph), budget_s=bud, required=True, twin=False))
     return L
